@@ -116,7 +116,7 @@ class Inst:
     group: tuple = ()         # nesting groups (call-site ids) this instance lives in
 
 
-ACTIVE_EXCEPT = {"sample": {1}}
+ACTIVE_EXCEPT = {"sample": {1}, "sample3": {1}}
 UNCHECKED = {"gate": {0, 1}, "halfgate": {1}, "sched": {0}}
 SCHEDULER_OPS = {"src", "ticker", "delay", "sched"}
 
@@ -275,6 +275,8 @@ class ModelRun:
     next_after: dict = field(default_factory=dict)    # cycle time -> earliest pending wake-up afterwards (INF = none)
 
 
+OPAQUE_OPS = {"csrc", "cmirror", "cprobe", "ccopy", "crecord", "creplay", "map", "switch", "reduce", "gs", "err", "recerr",
+              "tryout", "tryerr", "trynode"}
 ALL_UNCHECKED_OPS = {"gate", "sched", "allvalid2"}   # ops whose valid_inputs selector is empty
 
 
@@ -485,6 +487,8 @@ def simulate(flat: Flat, emulate_stale=False, emulate_sampled_start=False, prese
                         if o in ticked and o != final and q != eff:
                             R.stats["ref_unselected_ticks"] = R.stats.get("ref_unselected_ticks", 0) + 1
                 continue
+            if i.op in OPAQUE_OPS:
+                continue          # operators the core model does not interpret (modelled by their own monitors)
             if i.op == "const" or i.op == "fb":
                 if s.queue and t in s.queue:
                     v = s.queue.pop(t)
@@ -572,6 +576,8 @@ def simulate(flat: Flat, emulate_stale=False, emulate_sampled_start=False, prese
                     out = s.st
                 elif op == "sample":
                     out = vals[1] * 2 + vals[0]
+                elif op == "sample3":
+                    out = vals[0] + 2 * vals[1] + 3 * vals[2]
                 elif op == "gate" or op == "list2":
                     out = (vals[0] if vals[0] is not None else -1) * 3 + (vals[1] if vals[1] is not None else -1) * 5
                 elif op == "halfgate":
